@@ -114,6 +114,29 @@ func (tr *Translator) lookupIdent(name string) tv {
 		if v, ok := f.params[name]; ok {
 			return tv{v, f.paramTy[name]}
 		}
+		// hidden loop variables (rangeindex) of an enclosing loop: the header phi of the innermost enclosing loop that has one
+		if name == "rangeindex" {
+			var best *ssa.Phi
+			for _, eli := range f.inLoop[tr.block] {
+				if tr.li != nil && eli == tr.li {
+					continue
+				}
+				for _, in := range eli.header.Instrs {
+					phi, ok := in.(*ssa.Phi)
+					if !ok {
+						break
+					}
+					if phi.Comment == name {
+						if _, ok := f.vals[phi]; ok && (best == nil || best.Block().Dominates(phi.Block())) {
+							best = phi
+						}
+					}
+				}
+			}
+			if best != nil {
+				return tv{f.vals[best], best.Type()}
+			}
+		}
 		// a debug reference dominating the block
 		var best *nameRef
 		for i := range f.names[name] {
@@ -166,6 +189,10 @@ func (tr *Translator) lookupIdent(name string) tv {
 			return tv{tr.stVar("G_"+name, s), o.Type()}
 		}
 	}
+	if name == "held" {
+		// the set of mutexes held by the executing thread (ghost)
+		return tv{tr.stVar("held", ArrSort(SInt, SBool)), nil}
+	}
 	if sf, ok := f.p.specs[name]; ok && len(sf.Params) == 0 {
 		return tr.specApp(sf, nil)
 	}
@@ -197,6 +224,11 @@ func (tr *Translator) expr(e Expr) tv {
 	case *EGhost:
 		if x.Name == "#alloc" {
 			return tv{tr.stVar("alloc", SInt), tyInt}
+		}
+		if kt, ok := tr.f.p.ghostMaps[x.Name]; ok {
+			ks := tr.f.p.sortOf(tr.goType(kt))
+			tr.f.enc.declSortOf(ks)
+			return tv{tr.stVar(x.Name, ArrSort(ks, SInt)), nil}
 		}
 		return tv{tr.stVar(x.Name, SInt), tyInt}
 	case *EUnary:
@@ -404,7 +436,12 @@ func (tr *Translator) index(x, i tv) tv {
 		}
 	}
 	if strings.HasPrefix(string(x.t.Sort), "(Array") {
-		return tv{Select(x.t, i.t), nil}
+		_, vs := arrParts(x.t.Sort)
+		var rty types.Type
+		if vs == SInt {
+			rty = tyInt
+		}
+		return tv{Select(x.t, i.t), rty}
 	}
 	tr.fail("cannot index %s", x.t.Sort)
 	return tv{}
@@ -553,6 +590,9 @@ func (tr *Translator) call(c *ECall) tv {
 			tr.fail("has() on non-map")
 		}
 		return tv{f.mapHas(tr.state(), mt, m.t, k.t), tyBool}
+	case "held":
+		// the mutex (pointer to it) is held by the executing thread
+		return tv{Select(tr.stVar("held", ArrSort(SInt, SBool)), arg(0).t), tyBool}
 	case "allocated":
 		// the reference denotes an object that exists in the current (or old) state
 		v := arg(0)
@@ -889,6 +929,12 @@ func (f *Frame) readSort(name string) Sort {
 		parts := strings.SplitN(name[3:], "_", 2)
 		return ArrSort(SInt, ArrSort(sortFromSuffix(parts[0]), SBool))
 	case strings.HasPrefix(name, "#"):
+		if kt, ok := f.p.ghostMaps[name]; ok {
+			tvv, err := types.Eval(f.p.fset, f.p.pkg.Types, token.NoPos, kt)
+			if err == nil {
+				return ArrSort(f.p.sortOf(tvv.Type), SInt)
+			}
+		}
 		return SInt
 	}
 	panic("cannot determine sort of state variable " + name)
